@@ -102,12 +102,25 @@ struct Sched {
     budget: u64,
     /// Per mille chance to preempt at a yield point.
     p_preempt: u32,
+    /// PCT (probabilistic concurrency testing, Burckhardt et al.) instead of
+    /// uniform preemption: run the runnable thread of highest priority, lower
+    /// the running thread's priority at a few drawn steps. Long undisturbed
+    /// stretches with few, well placed switches.
+    pct: Option<Pct>,
     done: Arc<Parker>,
     exhausted: bool,
     /// Consecutive scheduling points that were all "blocked on a lock".
     blocked_streak: u32,
     /// Every thread is idle and nothing can make progress any more.
     stalled: bool,
+}
+
+struct Pct {
+    /// Priority per thread (higher runs first).
+    prio: Vec<i64>,
+    /// Steps at which the running thread drops below everybody.
+    change_at: Vec<u64>,
+    next_low: i64,
 }
 
 static SCHED: Mutex<Option<Sched>> = Mutex::new(None);
@@ -147,6 +160,24 @@ fn pick(s: &mut Sched, me: usize, must_switch: bool) -> Option<usize> {
         }
         if !cands.is_empty() {
             if cands.len() == 1 {
+                return Some(cands[0]);
+            }
+            if let Some(pct) = s.pct.as_mut() {
+                if !s.exhausted {
+                    // A thread that cannot take a lock is disabled in PCT's
+                    // terms; we only see it spinning, so it goes below everybody
+                    // (else the lock holder might never run: priority inversion).
+                    let lock_blocked = me < s.threads.len() && s.threads[me].state == State::BlockedLock;
+                    if (pct.change_at.contains(&s.steps) || lock_blocked) && me < pct.prio.len() {
+                        pct.prio[me] = pct.next_low;
+                        pct.next_low -= 1;
+                    }
+                    // Blocked-on-a-lock and idle-with-progress threads are in
+                    // `cands` like everybody else; the caller is excluded when
+                    // it must switch.
+                    let best = cands.iter().copied().max_by_key(|i| pct.prio[*i]).unwrap();
+                    return Some(best);
+                }
                 return Some(cands[0]);
             }
             let stay_possible = cands[0] == me;
@@ -446,11 +477,33 @@ pub fn run_threads(bodies: Vec<Box<dyn FnOnce() + Send>>, p_preempt: u32, budget
             steps: 0,
             budget,
             p_preempt,
+            pct: None,
             done: done.clone(),
             exhausted: false,
             blocked_streak: 0,
             stalled: false,
         });
+    }
+    // Strategy of this run: uniform preemption (3 of 4) or PCT.
+    if tape::choose(site::SCHED, 4) == 3 {
+        let depth = 1 + tape::choose(site::SCHED, 3) as usize;
+        let horizon = tape::pick(site::SCHED, &[60u32, 200, 800]);
+        let mut order: Vec<i64> = (0..n as i64).collect();
+        // A drawn permutation of the initial priorities.
+        for i in (1..n).rev() {
+            let j = tape::choose(site::SCHED, i as u32 + 1) as usize;
+            order.swap(i, j);
+        }
+        let change_at: Vec<u64> = (0..depth).map(|_| 1 + u64::from(tape::choose(site::SCHED, horizon))).collect();
+        crate::ev!("s strategy PCT depth={depth} horizon={horizon}");
+        crate::stats::inc(C::probe_sched_pct);
+        if let Some(s) = sched().as_mut() {
+            s.pct = Some(Pct {
+                prio: order,
+                change_at,
+                next_low: -1,
+            });
+        }
     }
     let mut handles = Vec::new();
     for (i, body) in bodies.into_iter().enumerate() {
